@@ -230,10 +230,12 @@ CLAIMS = {
     "C05": dict(
         engine="opt", design_ref="DESIGN.md section 4 C05",
         technique="Coq proof on IEEE binary64 (Flocq model of primitive floats) + induction over the run + bit-exact replay",
-        text="Theorem (binary64, every configuration with kt_start = +0 and kt_ratio in [0,1] or absent, every kt_finish, "
-             "step counts, oracle and random stream with thresholds >= 0): the temperature stays +0 in every loop and the "
-             "held score is non-decreasing between any two points of the run, so the result is at least the input score. "
-             "Key float facts proved through Flocq: x<y -> (x-y)/+0 = -inf; 0*(1-r) = +0 for r in [0,1]; <= is transitive.",
+        text="Theorem (binary64, every configuration with kt_start = 0 of either sign, EVERY kt_ratio (finite, infinite, NaN, "
+             "absent), every kt_finish, step counts, oracle and random stream with thresholds >= 0): the temperature is +0 in "
+             "every loop and the held score is non-decreasing between any two points of the run, so the result is at least "
+             "the input score.  Key float facts proved through Flocq: x<y -> (x-y)/+0 = -inf; the factor "
+             "min(max(0,1-r),f64::MAX) is finite and non-negative for every r, so 0*factor = +0; <= is transitive.  "
+             "(Defects D17/D18 - infinite ratio, negative-zero start - were found through the old theorem's premises and fixed.)",
         note=OPT_NOTE + "  Premise: libm exp(-inf) = 0."),
     "C06": dict(
         engine="opt", design_ref="DESIGN.md section 4 C06",
